@@ -39,7 +39,45 @@ def install(interp, registry):
 def subst_z(z, pairs):
     if not pairs:
         return z
-    return z3.substitute(z, *pairs)
+    z2 = z3.substitute(z, *pairs)
+    # Skolem quotient / remainder pairs (q, r) introduced for  a == b*q + r, 0 <= r < b  with a or b depending on a substituted
+    # variable are functions of that variable: instantiate them afresh for the substituted arguments (and let later divisions
+    # of the same terms reuse them through the division cache)
+    try:
+        c = cur()
+    except RuntimeError:
+        return z2
+    defs = getattr(c, 'qr_defs', None)
+    if not defs:
+        return z2
+    names = None
+    memo = c.__dict__.setdefault('_qr_subst_memo', {})
+    for (q, r, za, zb) in list(defs):
+        if names is None:
+            names = {x.decl().name() for x in V._consts_of(z2).values()}
+        if q.decl().name() not in names and r.decl().name() not in names:
+            continue
+        za2, zb2 = z3.substitute(za, *pairs), z3.substitute(zb, *pairs)
+        if za2.eq(za) and zb2.eq(zb):
+            continue
+        key = ('div', z3.simplify(za2).sexpr(), z3.simplify(zb2).sexpr())
+        hit = memo.get((q.get_id(), key))
+        if hit is None:
+            cached = c.divcache.get(key)
+            if cached is not None and z3.is_const(cached[0]) and z3.is_const(cached[1]):
+                hit = cached
+            else:
+                q2, r2 = c.fresh_int('q'), c.fresh_int('r')
+                c.assume_raw(za2 == zb2 * q2 + r2)
+                c.assume_raw(z3.And(r2 >= 0, r2 < zb2))
+                c.nonneg_ids.add(r2.get_id())
+                defs.append((q2, r2, za2, zb2))
+                c.divcache.setdefault(key, (q2, r2))
+                hit = (q2, r2)
+            memo[(q.get_id(), key)] = hit
+        z2 = z3.substitute(z2, (q, hit[0]), (r, hit[1]))
+        names = None
+    return z2
 
 
 def subst(v, pairs):
@@ -58,6 +96,8 @@ def subst(v, pairs):
         return tuple(subst(x, pairs) for x in v)
     if isinstance(v, list):
         return [subst(x, pairs) for x in v]
+    if isinstance(v, dict):
+        return {k: subst(x, pairs) for k, x in v.items()}
     from . import bytesmodel as BM
     if isinstance(v, BM.Tok):
         return BM.Tok(subst(v.kind, pairs) if is_sym(v.kind) else v.kind, subst(v.off, pairs) if is_sym(v.off) else v.off)
